@@ -9,8 +9,9 @@ sys.path.insert(0, HERE)
 import tlc as tlcmod
 
 KF_PATH = os.path.join(ROOT, 'known_findings.json')
-REPLAYS = os.path.join(ROOT, 'replays')
-EVID = os.path.join(ROOT, 'evidence')
+# (VERIF_OUT: where a run against a scratch worktree -- seedtool regress -- leaves its replays and evidence)
+REPLAYS = os.path.join(os.environ.get('VERIF_OUT', ROOT), 'replays')
+EVID = os.path.join(os.environ.get('VERIF_OUT', ROOT), 'evidence')
 
 
 def load_known():
